@@ -613,7 +613,7 @@ func c15Run(c *c15Case, r canvas.Renderer, rec *c15Recorder, o *core.Obs, label 
 					sty.Fill = c15Paint{None: true}
 				}
 				// dashes are dropped when the first dash covers the whole path; the histories use dashes
-				// shorter than 2.5 and the check below skips paths shorter than that
+				// shorter than 2.5 (in units of the stroke width) and the check below skips paths shorter than that
 				paintPath(shadow, 0, 0, sty)
 				switch op.Op {
 				case "Fill":
@@ -764,10 +764,13 @@ func c15Compare(o *core.Obs, label, where string, got []c15Call, want []c15Draw)
 				o.Fail("draw-path", "%s: %s: call %d carries path %s, expected %s (z-index %d, drawn %d-th)", label, where, k, dstr(g.Data), dstr(w.Data), w.Z, w.Seq)
 				return false
 			}
-			short := pathFrom(w.Data).Length() < 3
+			// dashes are in units of the stroke width (since 1186c65 DrawPath compares them so): a path shorter
+			// than three widths may lie within the first dash or gap of the histories' patterns
+			short := pathFrom(w.Data).Length() < 3*math.Max(1, w.Style.Width)
 			sty := w.Style
 			if short {
 				sty.Dashes, g.Style.Dashes = nil, nil // dash simplification for short paths is C05's subject
+				g.Style.DashOffset = sty.DashOffset   // (the offset goes with the dashes)
 			}
 			if len(sty.Dashes) == 0 {
 				g.Style.Dashes = nil
